@@ -32,6 +32,9 @@ type Tag struct {
 	C9 CustomVal
 }
 
+// Status is a named 8-bit integer type.
+type Status uint8
+
 // CustomVal is a driver.Valuer / sql.Scanner struct type.
 type CustomVal struct{ S string }
 
@@ -249,6 +252,15 @@ func (g *gen) sliceLeaves(col string, n int) (interface{}, []*leaf) {
 			ls = append(ls, l)
 		}
 		return out, ls
+	}
+	if g.r.Chance(1, 6) {
+		// a slice of a named 8-bit type is a slice, not a byte string: one placeholder per element
+		// (the elements are too small to carry a serial; the count and no-whole-slice rules apply)
+		out := make([]Status, n)
+		for i := range out {
+			out[i] = Status(g.r.Intn(200) + 1)
+		}
+		return out, nil
 	}
 	out := make([]interface{}, n)
 	for i := range out {
